@@ -81,6 +81,12 @@ def keyed_guard(fn, add_call):
         if not (isinstance(n, ast.If) and any(x is add_call for s in n.body for x in ast.walk(s))):
             continue
         t = n.test
+        extra = []
+        if isinstance(t, ast.BoolOp) and isinstance(t.op, ast.And):
+            nots = [x for x in t.values if isinstance(x, ast.UnaryOp) and isinstance(x.op, ast.Not) and isinstance(x.operand, ast.Call) and isinstance(x.operand.func, ast.Name) and x.operand.func.id == "any"]
+            if len(nots) == 1:
+                extra = [x for x in t.values if x is not nots[0]]
+                t = nots[0]
         if not (isinstance(t, ast.UnaryOp) and isinstance(t.op, ast.Not)):
             continue
         c = t.operand
@@ -113,6 +119,15 @@ def keyed_guard(fn, add_call):
         added = add_call.args[0] if add_call.args else None
         rec = K.src(added.args[0]) if isinstance(added, ast.Call) and added.args else None
         if mod_side is not None and name_ok and rec == mod_side:
+            if extra:
+                # registration made conditional on something else: which classes are left out of the registry?
+                ns = fn.args.args[3].arg if len(fn.args.args) > 3 else None
+                defs = {t_.id: st.value for st in ast.walk(fn) if isinstance(st, ast.Assign) for t_ in st.targets if isinstance(t_, ast.Name)}
+                for x in extra:
+                    x0 = defs.get(x.id, x) if isinstance(x, ast.Name) else x
+                    if isinstance(x0, ast.Compare) and len(x0.ops) == 1 and isinstance(x0.ops[0], ast.In) and isinstance(x0.left, ast.Constant) and isinstance(x0.comparators[0], ast.Name) and x0.comparators[0].id == ns:
+                        return "only classes whose own body defines `%s` are registered (`%s`): a command class that inherits it from a parent command - the same operation under another name or with other inputs - never reaches the registry, so its library does not offer it and the name resolves elsewhere or not at all" % (x0.left.value, K.src(x0))
+                raise AnalysisError("C19.c: registration in CommandMeta.__new__ is conditional on `%s`: cannot decide which command classes that leaves out" % K.src(extra[0])[:80])
             return True
     return False
 
@@ -485,7 +500,10 @@ def run(ctx, idx):
         elif fi is new and hit == "add":
             # keyed by module and name: the add is guarded by a not-any(module == and name ==) test
             keyed = keyed_guard(new.node, n)
-            ctx.ob("C19.c", con, mod.rel, n.lineno, keyed, "add-only, keyed by (module, command name)" if keyed else "registry add is not keyed by module and command name")
+            if isinstance(keyed, str):
+                ctx.violate("C19.c", con, mod.rel, n.lineno, keyed)
+            else:
+                ctx.ob("C19.c", con, mod.rel, n.lineno, keyed, "add-only, keyed by (module, command name)" if keyed else "registry add is not keyed by module and command name")
         elif fi is new and hit == "assign" and isinstance(n, ast.Assign) and K.src(n.value).endswith("._commands"):
             ctx.hold("C19.c", con, mod.rel, n.lineno, "class attribute aliases the single registry", nontrivial=False)
         else:
